@@ -764,9 +764,15 @@ class AttackGraph():
             logger.debug('Remove attacker "%s" with id:%d.',
                 attacker.name,
                 attacker.id)
+        if not any(graph_attacker is attacker \
+                for graph_attacker in self.attackers):
+            raise ValueError(
+                f'Attacker "{attacker.name}" is not part of the attack graph.'
+            )
         for node in list(attacker.reached_attack_steps):
             attacker.undo_compromise(node)
-        self.attackers.remove(attacker)
+        self.attackers = [graph_attacker for graph_attacker in \
+            self.attackers if graph_attacker is not attacker]
         if not isinstance(attacker.id, int):
             raise ValueError(f'Invalid attacker id.')
         del self._id_to_attacker[attacker.id]
